@@ -44,6 +44,10 @@ def run(ctx):
         writer_rule(ctx, fm)
         size_rule(ctx, fm)
         c05.selection_rule(ctx, fm, "C14.A")
+        rule_taken_reaches(ctx, "C14.T", fm, "vectorise_mmap",
+                           lambda n: n.get("k") == "mcall" and cname(n) == "ktio::mmap::MMWriter::write_at",
+                           "row write (every row of the mapping is written: no byte left NUL)")
+        stats_every_record(ctx, "C14.O")
     mmap_open_rule(ctx)
 
 
@@ -297,3 +301,20 @@ def mmap_open_rule_as(ctx, R):
         ok = order[0] is sl[0]
     ctx.check(R, "mmap_file_for_writing:set_len_then_map", ok, "file.set_len(size) precedes map_mut(&file)",
               "the mapping is not created from the file after `set_len(size as u64)`", fv.fn["sp"])
+
+
+
+def stats_every_record(ctx, rule):
+    """the sizing pass counts every record the iterator will deliver: seq_stats loops are branch-free"""
+    fv = ctx.need(rule, "ktio::seq::Sequences::seq_stats")
+    if fv is None:
+        return
+    loops = [l for l in fv.nodes if l.get("k") == "for"]
+    bad = [x for l in loops for x in walk(l["body"]) if x.get("k") in ("if", "match", "continue", "break", "ret")]
+    counts = [a for l in loops for a in walk(l["body"]) if a.get("k") == "assignop" and a["op"] == "+=" and fv.term(a["r"]) == L(1)]
+    ctx.check(rule, "seq_stats:counts_every_record", len(loops) == 2 and not bad and len(counts) == 2,
+              "seq_stats counts each record of both formats unconditionally",
+              "seq_stats skips or conditionally counts records (%s): seq_count would differ from the number of records the "
+              "iterator delivers, so the mapped file is sized for fewer/more rows than are written"
+              % ("`%s` in the counting loop" % bad[0].get("k") if bad else "%d loops / %d increments" % (len(loops), len(counts))),
+              line_of(bad[0]) if bad else fv.fn["sp"])
